@@ -60,6 +60,27 @@ OTHER_ITEMS = ["union X { a: u8, b: u16 }", "fn f() {}", "trait T {}", "mod m {}
                "enum X { A = 1, B = isize::MAX }", "struct X<const N: usize>([u8; N]);", "pub(in self) struct X;", "struct X where;", "struct X<T,>(T,);", "macro_rules! m { () => {} }", "struct X(#[cfg(any())] u8, u16);"]
 
 
+def impl_items(rng, n):
+    """syntactically valid operator impl items, including shapes rustc itself would reject later (`Self` inside the self type, missing
+    Output, foreign items in the body): expansion must still terminate with items or a compile_error!"""
+    SELF_TY = ["X", "&X", "&'a X", "X<T>", "&X<T>", "W<Self>", "Box<Self>", "(X, Self)", "[Self; 2]", "Self", "&Self", "<X as Tr>::A", "fn(Self) -> X", "dyn Tr<Self>", "X<{ 1 + 2 }>", "!", "()"]
+    RHS = ["", "<Self>", "<&Self>", "<u8>", "<&X>", "<Vec<Self>>", "<&'a Self>", "<Option<&Self>>", "<<Self as Tr>::A>", "<Self, Self>", "<[Self; 3]>"]
+    OUT = ["type Output = Self;", "type Output = X;", "type Output = Option<Self>;", "", "type Output = <Self as Tr>::A;", "type Output = (Self, Self); type Other = u8;", "const C: u8 = 1;"]
+    WH = ["", " where Self: Sized", " where Option<Self>: Sized, X: Tr<Self>", " where T: Copy", " where for<'b> &'b Self: Sized", " where"]
+    GEN = ["", "<T>", "<'a>", "<'a, T: Tr<Self>>", "<const N: usize>", "<T: Copy, U>"]
+    OPS = ["Add", "Sub", "Shl", "BitXor", "AddAssign", "ShlAssign", "Neg", "Not", "Clone", "Deref", "Index"]
+    ARGS = ["Add", "AddAssign", "Add, AddAssign", "Sub, Shl", "ShlAssign", "Neg", "Clone", "Add, dump", "Add(dump)", "Add(bound(T))", "", "Sub, SubAssign, Sub"]
+    out = []
+    for _ in range(n):
+        op = rng.choice(OPS)
+        f = {"Add": "add", "Sub": "sub", "Shl": "shl", "BitXor": "bitxor", "AddAssign": "add_assign", "ShlAssign": "shl_assign", "Neg": "neg", "Not": "not", "Clone": "clone", "Deref": "deref", "Index": "index"}[op]
+        rhs = "" if op in ("Neg", "Not", "Clone", "Deref") and rng.random() < 0.8 else rng.choice(RHS)
+        body = rng.choice(OUT) + " " + rng.choice(["fn %s(self, rhs: Self) -> Self { self }" % f, "fn %s(&mut self, rhs: Self) {}" % f, "fn %s(self) -> Self::Output { self }" % f, "", "fn %s(self, _: &Self) -> Self::Output { todo!() }" % f])
+        item = "%simpl%s %s%s%s for %s%s { %s }" % (rng.choice(["", "", "unsafe ", "#[doc = \"x\"] ", "default "]), rng.choice(GEN), rng.choice(["", "", "core::ops::", "::core::ops::", "!"]), op, rhs, rng.choice(SELF_TY), rng.choice(WH), body)
+        out.append((rng.choice(ARGS), item))
+    return out
+
+
 def mutate(rng, it, derived):
     it = copy.deepcopy(it)
     derived = list(derived)
@@ -141,6 +162,9 @@ def run(ctx):
             probe(ctx, ex, "both", a, it, stats)
         for a in ("Clone", "Add", "Add, AddAssign", "Default, Debug", "Ord, PartialOrd, Eq, PartialEq, Hash", "Deref", "Neg"):
             probe(ctx, ex, "both", a, it, stats)
+    for (a, it) in impl_items(rng, 600 if ctx.quick else 20000):
+        probe(ctx, ex, "attr", a, it, stats)
+        stats["impl_items"] = stats.get("impl_items", 0) + 1
     n = 2500 if ctx.quick else 100000
     gen = []
     for k in range(n):
